@@ -18,7 +18,15 @@ CHECKS["C17"] = dict(engine="symx", technique="symbolic execution (symx/z3) of t
 CHECKS["C18"] = dict(engine="symx", technique="symbolic execution (symx/z3) of the real SSE/NDJSON helpers over httpx's real LineDecoder: stream characters symbolic, split points solver-decided; metamorphic oracle (chunked == unsplit) plus a weak reference on canonical streams",
    text="For every text up to 4 (quick) / 5-6 (thorough) symbolic characters over the alphabet 'dat: LF CR x é U+2028 { 1' and every subset of split points, and for SSE templates with concrete field names and symbolic payload/separator characters with <=1/<=2 split points anywhere, z3 decides that iter_sse, iter_sse_events_text and iter_ndjson yield exactly the items of the unsplit stream; a weak reference decides the positive half on canonical LF-terminated streams.",
    note="Byte-level splitting inside a multi-byte character is decided by codecs' incremental decoder inside httpx (C code) and is outside the claim; json.loads is an identity stub; the stub response reproduces httpx.Response.aiter_lines' loop over the instrumented httpx LineDecoder.", ref="§2 C18")
-NA = {}
+CHECKS["C15"] = dict(engine="symx", technique="symbolic execution (symx/z3) of the real model/endpoint/client renderers on a spec object carrying one symbolic text, followed by a reference model of Python's lexical rules executed on the symbolic output; lexer validated against CPython every run",
+   text="For 30 text-bearing sites (descriptions, enum values, wire keys, defaults, discriminator names/values, parameter/header names, tags, media types, title/version) and every text up to 2 (quick) / 3-4 (thorough) characters over a 21-character hostile alphabet (quotes, backslash, LF, CR, TAB, #, braces, escape letters, NUL, FF, U+2028, non-ASCII, astral), z3 decides every path of the real rendering code and of the reference lexer: each rendered fragment lexes, has the token skeleton of the benign rendering, and meaning-carrying literals evaluate to the original text.",
+   note="Trusts z3, the symx instrumentation (every path witness re-rendered by the uninstrumented code and compared), and lib/pylex.py, which is compared with CPython (ast.parse, AST shape, constants) on every text up to 2/3 characters at every site each run. Black is stubbed to the identity; texts long enough to wrap are outside the claim; other texts of the object are benign.", ref="§2 C15")
+NA = {
+ "C01": "not applicable to solver-based checking: the observation is compile()/import of a whole emitted file tree for a whole symbolic document; no kernel small enough to encode (identifier and lexical kernels are decided under C20/C15)",
+ "C09": "not applicable: quantifies over hash seeds, processes, clocks and existing file trees; the deciding observation is byte equality of directory trees - nothing for a solver to decide",
+ "C10": "not applicable: a fault-injection property over filesystem effects (tempfile, rmtree, write_text); the observable is a before/after snapshot of a real directory",
+ "C12": "not applicable: absence of an import over all emitted files and byte identity of copied files - a scan of artefacts, not a computation over inputs",
+}
 def main():
     checks = []
     for pid, c in sorted(CHECKS.items()):
